@@ -23,6 +23,7 @@ import (
 	"fmt"
 	"os"
 	"runtime"
+	"strconv"
 	"strings"
 	"time"
 
@@ -58,7 +59,19 @@ func plan(thorough bool) (planOpts, [][]*sigT, int) {
 	return o, batches, len(sigs)
 }
 
+// childDeadline is the parent's budget deadline (fw.Supervise only polls Stop when it (re)starts a worker, so
+// the workers themselves skip the remaining batches once the budget is used up).
+var childDeadline = func() time.Time {
+	if v, err := strconv.ParseInt(os.Getenv("C08_DEADLINE"), 10, 64); err == nil && v > 0 {
+		return time.Unix(0, v)
+	}
+	return time.Time{}
+}()
+
 func runCase(batches [][]*sigT, i int) (out string) {
+	if !childDeadline.IsZero() && time.Now().After(childDeadline) {
+		return "S"
+	}
 	defer func() {
 		if p := recover(); p != nil {
 			if h, ok := p.(harnessErr); ok {
@@ -103,6 +116,7 @@ func main() {
 	var samples []any
 	sampleEvery := len(batches)/10 + 1
 	sampleAt := map[int]any{}
+	skipped := 0
 	famSigs := map[string]int{}
 	for _, b := range batches {
 		for _, s := range b {
@@ -114,6 +128,7 @@ func main() {
 		}
 	}
 	done := fw.Supervise(fw.SupOpts{N: len(batches), Workers: runtime.NumCPU(), CaseTimeout: 5 * time.Minute, Mode: "batch",
+		Env: []string{"C08_DEADLINE=" + strconv.FormatInt(run.Deadline.UnixNano(), 10)},
 		Stop: func() bool {
 			if run.Expired() {
 				run.Capped("budget")
@@ -130,6 +145,10 @@ func main() {
 				run.Violation("process-"+crash.Kind, fmt.Sprintf("batch %d (%s ... %s) %s: %s", i, desc[0], desc[len(desc)-1], crash.Kind, fw.FirstLines(crash.Stderr, 4)),
 					map[string]any{"batch": i, "signatures": desc})
 				outcomes.Inc("process " + crash.Kind)
+				return
+			}
+			if res == "S" {
+				skipped++
 				return
 			}
 			if strings.HasPrefix(res, "H ") {
@@ -162,9 +181,10 @@ func main() {
 			samples = append(samples, s)
 		}
 	}
-	if done < len(batches) {
+	if done < len(batches) || skipped > 0 {
 		run.Capped("budget")
 	}
+	done -= skipped
 	om := outcomes.Map()
 	om["value crossings identical"] = total.Crossings
 	for k, v := range om {
